@@ -519,6 +519,9 @@ class Interp:
         return
 
     def st_While(self, s, fr):
+        hook = getattr(self, 'symwhile_hook', None)
+        if hook is not None and hook(self, s, fr):
+            return
         n = 0
         while True:
             if not self.decide(self.eval(s.test, fr)):
